@@ -522,11 +522,8 @@ class Oracle:
                 e2 = dict(env)
                 e2.update({n: i for (n, s), i in zip(vs, idx)})
                 vals.append(ev(node[2], e2))
-                if op in ("max", "min") and node[2][0] == "bin" and node[2][1] in ("mul", "truediv"):
-                    # (max, mul) and (min, mul) are semirings on non-negative data only
-                    for operand in (node[2][2], node[2][3]):
-                        if (np.asarray(ev(operand, e2), dtype=float) < 0).any():
-                            raise OutOfDomain("max/min paired with mul on negative data (outside the declared carrier)")
+                if op in ("max", "min"):
+                    self._check_maxmin_carrier(node[2], e2)
             if op in ("and", "or"):
                 vals = [np.asarray(v).astype(bool) for v in vals]
             elif op == "logaddexp":
@@ -605,6 +602,26 @@ class Oracle:
         if k == "approx":
             return ev(node[2], env)
         raise HarnessError(f"unknown node {k}")
+
+    def _check_maxmin_carrier(self, body, env):
+        """(max, mul) and (min, mul) are semirings on non-negative data only: a product reachable from a
+        max/min reduction through arithmetic must have non-negative operands at this point."""
+        muls = [n for n in walk(body) if n[0] == "bin" and n[1] in ("mul", "truediv", "pow")]
+        if not muls:
+            return
+        for m in muls:
+            for operand in (m[2], m[3]):
+                try:
+                    neg = (np.asarray(self.ev(operand, env), dtype=float) < 0).any()
+                except HarnessError:
+                    # the operand lives under an inner binder: be conservative if anything in it can be negative
+                    neg = any(
+                        (x[0] == "var" and x[2][0] == "real") or (x[0] == "un" and x[1] == "neg") or (x[0] == "bin" and x[1] == "sub")
+                        or (x[0] == "ten" and x[3] == "real" and any(v < 0 for v in x[4])) or (x[0] == "un" and x[1] in ("log", "log1p", "tanh", "atanh"))
+                        for x in walk(operand)
+                    )
+                if neg:
+                    raise OutOfDomain("max/min paired with mul on negative data (outside the declared carrier)")
 
     # ---- closed forms over real variables (Gaussian integrals), DESIGN.md 2.2
     def _probe_quadratic(self, fn, shapes):
